@@ -335,16 +335,16 @@ static void cv_case(const cfg_t *c, const call_t *k, int delta_choice) {
 }
 
 /* ------------------------------------------------------------------ configuration alphabets */
-static void choose_learner(cfg_t *c, int nalgo) {
-  int T = vx_thorough();
+/* level 0: small quick alphabet (KFold, bootstrap), 1: quick LOO, 2: thorough */
+static void choose_learner(cfg_t *c, int nalgo, int level) {
   memset(c, 0, sizeof *c); c->ny = 1; c->nlv = 1; c->ncls = 0;
   c->algo = vx_choose("algo", nalgo);
   if (c->algo == A_PLS) {
-    c->p = 2 + vx_choose("p-2", T ? 3 : 2); c->nlv = 1 + vx_choose("nlv-1", T ? 3 : 2); c->ny = 1 + vx_choose("ny-1", T ? 3 : 2);
-    c->xa = vx_choose("xscaling", 2); c->ya = T ? vx_choose("yscaling", 2) : 0;
+    c->p = 2 + vx_choose("p-2", level == 2 ? 3 : level == 1 ? 2 : 1); c->nlv = 1 + vx_choose("nlv-1", level == 2 ? 3 : 2); c->ny = 1 + vx_choose("ny-1", level == 2 ? 3 : 2);
+    c->xa = level == 0 ? 1 : vx_choose("xscaling", 2); c->ya = level == 2 ? vx_choose("yscaling", 2) : 0;
     vx_require(c->nlv <= c->p);
   } else if (c->algo == A_MLR) {
-    c->p = 1 + vx_choose("p-1", T ? 6 : 3); c->ny = 1 + vx_choose("ny-1", 3);
+    c->p = 1 + vx_choose("p-1", level == 2 ? 6 : level == 1 ? 3 : 2); c->ny = 1 + vx_choose("ny-1", level == 0 ? 2 : 3);
   } else {
     c->p = 1 + vx_choose("p-1", 2); c->ncls = 2 + vx_choose("ncls-2", 2);
   }
@@ -358,7 +358,7 @@ static void mode_loo(void) {
   int tc = vx_choose("threads", T ? 5 : 4);
   int nthreads = tc == 0 ? 1 : tc == 1 ? 2 : tc == 2 ? 3 : tc == 3 ? n + 1 : 8;
   int dl = vx_choose("delta", 2);
-  cfg_t c; choose_learner(&c, 3); c.n = n;
+  cfg_t c; choose_learner(&c, 3, T ? 2 : 1); c.n = n;
   c.fam = vx_choose("fam", T ? 2 : 1);
   vx_require(c.n - 1 >= c.p + 2);
   if (c.algo == A_LDA) vx_require(min_class(&c) >= 3 && c.n - 2 - c.ncls >= c.p);
@@ -373,8 +373,8 @@ static void mode_kfold(void) {
   static int lab[NMAX]; int cnt[8] = {0};
   for (int i = 0; i < n; i++) { lab[i] = vx_choose("label", nlab); cnt[lab[i]]++; }
   int tc = vx_choose("threads", 3), nthreads = tc == 0 ? 1 : tc == 1 ? 2 : 4;
-  int dl = vx_choose("delta", 2);
-  cfg_t c; choose_learner(&c, 2); c.n = n;
+  int dl = (T && n == 6) ? vx_choose("delta", 2) : 0;
+  cfg_t c; choose_learner(&c, 2, T ? 1 : 0); c.n = n;
   /* the statement's refit is undefined when a training set cannot carry the model */
   for (int g = 0; g < nlab; g++) if (cnt[g]) vx_require(c.n - cnt[g] >= c.p + 2);
   call_t k = {S_KFOLD, nthreads, 0, 1, lab};
@@ -383,12 +383,12 @@ static void mode_kfold(void) {
 
 static void mode_boot(void) {
   static const int NQ[] = {6, 8, 9}, NT[] = {6, 8, 9, 12, 15};
-  static const int IT[] = {1, 2, 3, 4, 6, 12};
+  static const int IT[] = {1, 2, 3, 12, 4, 6};
   int T = vx_thorough();
   int n = T ? NT[vx_choose("n", 5)] : NQ[vx_choose("n", 3)];
   int g = 1 + vx_choose("groups-1", n);
-  int it = IT[vx_choose("iterations", 6)];
-  cfg_t c; choose_learner(&c, 3); c.n = n;
+  int it = IT[vx_choose("iterations", T ? 6 : 4)];
+  cfg_t c; choose_learner(&c, 3, T ? 1 : 0); c.n = n;
   c.fam = vx_choose("fam", T ? 2 : 1);
   int dl = c.algo == A_LDA ? vx_choose("delta", 2) : 0;
   int t = (c.n + g - 1) / g;
